@@ -27,7 +27,7 @@ func init() {
 			fs.Enum("cmp", "unknown", path)
 			fs.OptNat("wRealm", 0, false, path)
 			fs.OptNat("wSwamp", 0, false, path)
-			for _, n := range []string{"persistsInMem", "persistsIdle", "persistsWi", "persistsSize", "unchangedChecksType"} {
+			for _, n := range []string{"persistsInMem", "persistsIdle", "persistsWi", "persistsSize", "unchangedChecksType", "saveAtomic"} {
 				fs.Tri(n, Unknown, path)
 			}
 		}
@@ -41,6 +41,7 @@ func init() {
 		c21Lookup(fs, f, path)
 		c21Persist(fs, f, path)
 		c21Unchanged(fs, f, path)
+		c21SaveAtomic(fs, f, path)
 	}})
 }
 
@@ -421,4 +422,25 @@ func c21Unchanged(fs *Facts, f *File, path string) {
 		return
 	}
 	fs.Tri("unchangedChecksType", TriOf(strings.Contains(cond, "s.patterns[pattern.Get()].GetSwampType() == setting.PermanentSwamp &&")), path+":"+itoa(f.Line(inner)))
+}
+
+// c21SaveAtomic: SaveSettingsToFilesystem.
+//
+//	no : the marshalled model goes straight to the final path with os.WriteFile(filePath, …)
+//	yes: it is written to a temporary path and moved over the final one with os.Rename(<tmp>, filePath)
+func c21SaveAtomic(fs *Facts, f *File, path string) {
+	fd := f.Func("settings", "SaveSettingsToFilesystem")
+	if fd == nil || fd.Body == nil || !f.Contains(fd, "filePath := path.Join(hydraSettingsFolderPath, fileName)") {
+		return
+	}
+	writes := f.Calls(fd, "os.WriteFile")
+	renames := f.Calls(fd, "os.Rename")
+	where := path + ":" + itoa(f.Line(fd))
+	switch {
+	case len(writes) == 1 && len(renames) == 0 && f.Str(writes[0].Args[0]) == "filePath":
+		fs.Tri("saveAtomic", No, where)
+	case len(writes) == 1 && len(renames) == 1 && f.Str(writes[0].Args[0]) != "filePath" &&
+		f.Str(renames[0].Args[0]) == f.Str(writes[0].Args[0]) && f.Str(renames[0].Args[1]) == "filePath":
+		fs.Tri("saveAtomic", Yes, where)
+	}
 }
